@@ -28,6 +28,7 @@ HARNESS = os.path.join(ROOT, "harness")
 BUILD = os.path.join(ROOT, ".build")
 DRIVER_BIN = os.path.join(LEAN, ".lake", "build", "bin", "tvdriver")
 HARNESS_BIN = os.path.join(BUILD, "cargo", "debug", "tvharness")
+HARNESS_DBG_BIN = os.path.join(BUILD, "cargo", "dbg", "tvharness")     # tsrun unoptimised (profile dbg)
 EVIDENCE = os.path.join(ROOT, "evidence")
 REPLAYS = os.path.join(EVIDENCE, "replays")
 REPO = "/repo"
@@ -170,6 +171,13 @@ def harness_build():
     return rc == 0, out
 
 
+def harness_dbg_build():
+    """the harness with tsrun compiled without optimisation, as a host's debug build has it"""
+    with Lock("cargo"):
+        rc, out = sh(["cargo", "build", "--offline", "--profile", "dbg"], cwd=HARNESS, env=env_offline(), timeout=3600)
+    return rc == 0, out
+
+
 def _run_lines_once(binary, args, lines, timeout):
     data = "\n".join(lines) + "\n"
     try:
@@ -225,6 +233,10 @@ def driver(model_args, lines, **kw):
 
 def harness(model_args, lines, **kw):
     return run_parallel(HARNESS_BIN, model_args, lines, **kw)
+
+
+def harness_dbg(model_args, lines, **kw):
+    return run_parallel(HARNESS_DBG_BIN, model_args, lines, **kw)
 
 
 def known_findings():
